@@ -1,5 +1,6 @@
 import TunnoxModel.Proofs.C17Mutex
 import TunnoxModel.Proofs.C17Evict
+import TunnoxModel.Proofs.C17Slot
 /-!
 # C17 — configured limits and quotas hold under concurrency
 
@@ -443,6 +444,47 @@ theorem C17_code_steps :
     (∀ n, protoCode.cnt n = n * Gen.Skel.L17_CodeGetByID.length) := by
   refine ⟨by decide, ?_⟩
   intro n; simp [protoCode, Gen.Skel.L17_CodeGetByID]
+
+/-! ## The slot across the life of its tunnel (close events interleaved with `handleConnection`) -/
+
+/-- **C17, slot life cycle.** For every limit (0 = unlimited), any number of connections and EVERY
+interleaving of the three steps of each `handleConnection` (take the slot … `RegisterTunnel` …
+`Start`) with `Tunnel.Close` events on any tunnel at any time — in particular a close that lands
+between `RegisterTunnel` and `Start` —: no slot is taken while `limit` slots are held, the number
+of live tunnels reported after every event is the reference number and within the limit. -/
+theorem C17_slot_main (limit : Nat) (σ : List C17Slot.Sch) :
+    C17Slot.holds limit (C17Slot.run true limit C17Slot.init σ).trace = true :=
+  (C17Slot.inv_run σ _ (C17Slot.inv_init limit)).good
+
+/-- **The slot counter is never negative and never above the limit**, and at least the number of
+live tunnels, after every prefix of every such interleaving (`run … σ` for every `σ`). -/
+theorem C17_slot_counter (limit : Nat) (σ : List C17Slot.Sch) :
+    0 ≤ (C17Slot.run true limit C17Slot.init σ).cnt ∧
+    (limit = 0 ∨ (C17Slot.run true limit C17Slot.init σ).cnt ≤ limit) ∧
+    ((C17Slot.run true limit C17Slot.init σ).tunnels.length : Int) ≤ (C17Slot.run true limit C17Slot.init σ).cnt := by
+  have h := C17Slot.inv_run σ _ (C17Slot.inv_init limit)
+  refine ⟨?_, h.cap, ?_⟩ <;> rw [h.cnt] <;> omega
+
+/-- **Release without `sync.OnceFunc` (seeded regression `mapping-slot-released-twice`).** The tunnel
+of connection 0 is closed between `RegisterTunnel` and `Start`: `OnClosed` gives the slot back,
+`Start` fails, the deferred clean-up gives it back again — the counter is −1 … -/
+theorem C17_slot_twice_witness :
+    (C17Slot.run false 1 C17Slot.init [.step 0, .step 0, .close 0, .step 0]).cnt = -1 := by decide
+
+/-- … and two further connections are then admitted at limit 1. -/
+theorem C17_slot_twice_exceeds :
+    C17Slot.holds 1 (C17Slot.run false 1 C17Slot.init
+      [.step 0, .step 0, .close 0, .step 0, .step 1, .step 1, .step 1, .step 2, .step 2]).trace = false := by decide
+
+/-- The same history with the `OnceFunc`: the third connection is refused. -/
+example :
+    (C17Slot.run true 1 C17Slot.init
+      [.step 0, .step 0, .close 0, .step 0, .step 1, .step 1, .step 1, .step 2, .close 1, .step 2]).trace
+      = [.acq 0 0, .reg 0 1, .cls 0 0, .fal 0 0, .acq 1 0, .reg 1 1, .sta 1 1, .ref 2 1, .cls 1 0] := by decide
+
+/-- `holds` for slots rejects an acquisition at the limit and a live count above it. -/
+example : C17Slot.holds 1 [.acq 0 0, .acq 1 0] = false := by decide
+example : C17Slot.holds 1 [.acq 0 0, .reg 0 1, .cls 0 0, .acq 1 0, .reg 1 1] = true := by decide
 
 /-! ## Non-vacuity -/
 
